@@ -25,15 +25,21 @@ extern "C" void vfh_C07_reinit(void)
 	PHRQ_io io;
 	Phreeqc *fresh = new Phreeqc(&io);
 	fresh->clean_up(); fresh->init(); fresh->do_initialize();   /* what IPhreeqc's constructor does (UnLoadDatabase) */
-	Phreeqc *used = new Phreeqc(&io);
+	PHRQ_io io_used;
+	Phreeqc *used = new Phreeqc(&io_used);
 	used->clean_up(); used->init(); used->do_initialize();
 	/* counts and sizes that clean_up / initialize use as loop bounds over containers keep their (consistent) values */
 	vf_havoc_except((void *) used, "Phreeqc", "count_|max_|n_|num|size|new_|stag_data.count_stag");
-	used->phrq_io = &io;
+	used->phrq_io = &io_used;
+	/* the stream switches of the io object that input options flip (KNOBS -logfile, PRINT -selected_output / -dump / -echo_input) */
+	io_used.Set_log_on(true); io_used.Set_punch_on(false); io_used.Set_dump_on(false); io_used.Set_echo_on(false);
 	used->clean_up();
 	used->init();
 	used->do_initialize();
 	vf_reach("reinit.compared");
+	/* log_on has no other place that re-establishes it; punch_on is set from pr.punch by tidy_punch whenever a SELECTED_OUTPUT
+	   exists (a load removes them all), echo_on at the start of every read_input, and IPhreeqc routes dumps itself (reviewed) */
+	vf_check("reinit.log_stream_switch_as_fresh", io_used.Get_log_on() == io.Get_log_on());
 	/* Reviewed members that a load does not reset and that cannot influence later results:
 	   - use.*: cxxUse::init() runs at the start of every read_input();
 	   - last_model.numerical_fixed_volume: only compared by check_same_model when force_prep is false, and a load sets force_prep;
